@@ -65,6 +65,26 @@ CLAIMED = {
    "Go race detector + runtime reference monitor (fresh -race process per goroutine/GOMAXPROCS configuration, colliding pattern families, answers compared with regexp compiled from the asked pattern)",
    "1..64 goroutines released together first-use the same new patterns, then mix shared, private and invalid ones through Pattern and pattern/patternProperties schemas; every answer is compared with Go regexp on that very pattern and the race-detector log of every process is parsed.",
    "Sampled schedules; the race detector only sees interleavings that happened; goroutines are kept alive to the end so their accesses are not forgotten.", "DESIGN.md §4 C15"),
+ "C04": ("exploration",
+   "runtime self-differential monitor (recycling entry points inside a history vs the same call alone, non-recycling, in a fresh process) + pool hooks (ownership automaton, poison on redeem)",
+   "Histories of 60-240 tagged calls through AgainstSchema, single-use recycling validators and Spec are replayed with poison on, poison off and GC between calls; every outcome is compared with the fresh-process non-recycling reference; the hook-based ownership automaton flags double redeem / borrow of an owned object; messages are scanned for foreign tags and the poison mark.",
+   "The library alone in a fresh process is the oracle; poison is sound by the pool contract; sampled histories.", "DESIGN.md §4 C04"),
+ "C05": ("exploration",
+   "Go race detector + runtime self-differential monitor + pool hooks (fresh -race process per goroutine/GOMAXPROCS configuration; phase A poison+yield without monitor synchronisation, phase B ownership automaton + hand-off census)",
+   "2..64 goroutines run independent histories (AgainstSchema, recycling validators, Spec on own documents, one shared validator, helpers) while one toggles SetContinueOnErrors; each outcome is compared with its sequential reference; race-detector logs are parsed; cross-goroutine hand-offs of pooled objects are counted as evidence of the interleavings actually seen.",
+   "Sampled schedules only; goroutines kept alive to the end; shared schemas are $ref-free as the property says.", "DESIGN.md §4 C05"),
+ "C11": ("fault_enumeration",
+   "runtime fault injection (panic at the k-th invocation of a caller-supplied format checker, every k up to the measured K; documented invalid-schema panic at 11 placements x 2 entry points) + self-differential follow-up + pool hooks",
+   "For each workload the panic-free run measures K checker invocations; for every k=1..K the checker panics at invocation k, the caller recovers, and a 60-call follow-up history (+Spec) is compared call by call with fresh-process references while the ownership automaton watches the pools; same for the invalid-schema panic raised from under every kind of parent.",
+   "Fault model: one recovered panic per history, raised by the checker or the documented schema panic; workloads are sampled, injection points within a workload are enumerated exhaustively.", "DESIGN.md §4 C11"),
+ "C18": ("exploration",
+   "runtime reference-model monitor (draft-4 model extended with applicable-schemata-per-member vs post.ApplyDefaults on the real result)",
+   "Valid object data is validated by the real validator (recycling off/on), ApplyDefaults runs on the real result, and the data is compared with the model's prescription: absent members with an applicable default are filled with one of them, present members untouched, nothing else appears.",
+   "Model trusted (self-checked); dependencies and null defaults excluded as stated; sampled.", "DESIGN.md §4 C18"),
+ "C19": ("exploration",
+   "runtime reference-model monitor (model-pruned data vs post.Prune on the real result, plus idempotence re-run)",
+   "Valid data is validated by the real validator, Prune runs on the real result, and the remaining data must equal the data pruned by the model (member survives iff described by an applicable schema); without anyOf/oneOf a second validate+prune must remove nothing.",
+   "Model trusted (self-checked); sampled.", "DESIGN.md §4 C19"),
 }
 
 NOT_YET = "check not built yet in this session (see DESIGN.md §4 for the planned monitor)"
